@@ -91,3 +91,23 @@ Example C08_lattice_example :
   sparse_manhattan (sparsify 0 [3; 0; 0; 2; -1]) (sparsify 0 [3; 0; 5; 0; -1]) = 7 /\
   sparse_hamming (sparsify 0 [3; 0; 0; 2; -1]) (sparsify 0 [3; 0; 5; 0; -1]) 5 = (2, 5).
 Proof. vm_compute. repeat split; reflexivity. Qed.
+
+(* the same for the angular pair: sparse_cosine / sparse_alternative_cosine on the CSR encodings take the same branch
+   (zero / one / sentinel / ratio) on the same exact (result, norm_x * norm_y) as the dense kernels, for all integer
+   vectors: sparse_mul of two encodings IS the encoding of the pointwise product *)
+Theorem C08_sparse_mul_of_encodings : forall x y s, length x = length y ->
+  sparse_mul (sparsify s x) (sparsify s y) = sparsify s (mul2 x y).
+Proof. exact sparse_mul_sparsify. Qed.
+Print Assumptions C08_sparse_mul_of_encodings.
+
+Theorem C08_sparse_cosine_eq_dense : forall x y, length x = length y ->
+  sparse_cosine (sparsify 0 x) (sparsify 0 y) = cosine x y /\
+  sparse_alternative_cosine (sparsify 0 x) (sparsify 0 y) = alternative_cosine x y.
+Proof. exact sparse_cosine_eq_dense. Qed.
+Print Assumptions C08_sparse_cosine_eq_dense.
+
+Example C08_cosine_example :
+  sparse_cosine (sparsify 0 [3; 0; -4; 0]) (sparsify 0 [0; 2; -4; 0]) = ARatio 16 500 /\
+  sparse_cosine (sparsify 0 [0; 0]) (sparsify 0 [0; 0]) = AZero /\
+  sparse_alternative_cosine (sparsify 0 [1; 2]) (sparsify 0 [-2; 1]) = AMax.
+Proof. vm_compute. repeat split; reflexivity. Qed.
